@@ -1,5 +1,6 @@
 import RgVerif.Lemmas.GitLine3
 import RgVerif.Lemmas.GitStar
+import RgVerif.Lemmas.GitBlank
 /-
 C04 — ignore files mean what git says.  Only the deciding statements; proofs in `Lemmas/Git*.lean`.
 
@@ -57,16 +58,22 @@ theorem C04_tree (ci : Bool) (ign : List Bytes → List (List Nat)) (comps : Lis
     rgSkipped ci ign comps isDir = GitSpec.gitIgnored ci ign comps isDir :=
   rgSkipped_eq_gitIgnored ci ign comps isDir hag hwf
 
+/-- **Trailing blanks** (`okLineB`: a line of either sub-grammar followed by unescaped spaces): both sides drop
+them (`trim_right` unless the line ends in `\\ `; git's `trim_trailing_spaces`). -/
+theorem addline_wildmatch_blanks (ci : Bool) (l : List Nat) (h : okLineB ci l = true) : LineAgree ci l :=
+  lineAgree_of_okLineB ci l h
+
 /-- lines the composition below accepts: the wildcard and the `**` sub-grammars, comments, empty lines -/
 def okFileLine (ci : Bool) (l : List Nat) : Bool :=
-  okLineW ci l || okLineS ci l || l.isEmpty || l.head? == some 35
+  okLineW ci l || okLineS ci l || okLineB ci l || l.isEmpty || l.head? == some 35
 
 theorem lineAgree_of_okFileLine (ci : Bool) (l : List Nat) (h : okFileLine ci l = true) : LineAgree ci l := by
   unfold okFileLine at h
   simp only [Bool.or_eq_true, beq_iff_eq] at h
-  rcases h with ((h | h) | h) | h
+  rcases h with (((h | h) | h) | h) | h
   · exact lineAgree_of_okLineW ci l h
   · exact lineAgree_of_okLineS ci l h
+  · exact lineAgree_of_okLineB ci l h
   · have : l = [] := by simpa using h
     subst this
     intro rel isDir _
@@ -91,23 +98,29 @@ theorem C04_partial (ci : Bool) (ign : List Bytes → List (List Nat)) (comps : 
 /-- the unguarded line-level statement -/
 def addline_wildmatch_full : Prop := ∀ (ci : Bool) (l : List Nat), LineAgree ci l
 
-/-- witness: the line `\/` (an escaped slash and nothing else) — `add_line` strips the trailing slash
-(directories only) and then the escaping backslash, is left with the empty pattern, prefixes `**/` and obtains
-the tokens `[RecursivePrefix]`, which match everything: every directory is ignored.  git reads a directory-only
-pattern `\` whose dangling escape matches nothing.  (The older witness, the lone `!`, was repaired in /repo by
-9332074 and is skipped by the model as well.) -/
+/-- witness: the line `a[!b]c` and the file `a/c` — ripgrep's glob `**/a[!b]c` is the regex
+`(?:/?|.*/)a[^b]c`, whose negated class matches the path separator, so the whole path `a/c` matches; git
+compares a pattern without `/` with the entry's name `c` only (and a bracket expression never matches `/`).
+This is the recorded finding `bracket-class-admits-slash`, which cannot be repaired without breaking the
+unedited test suite.  (The two earlier witnesses, the lone `!` and the lone escaped slash, were repaired in
+/repo by 9332074 and d16e9e9; the model mirrors both repairs.) -/
 theorem addline_wildmatch_full_fails : ¬ addline_wildmatch_full := by
   intro h
-  have := h false [92, 47] [[97]] true (by decide)
+  have := h false [97, 91, 33, 98, 93, 99] [[97], [99]] false (by decide)
   revert this
-  simp [mHit, sHit, GitSpec.parsePat, GitSpec.patMatches, GitSpec.trimSpaces, GitSpec.trimSpaces.go,
-    GitSpec.stripNeg, GitSpec.stripDir, GitSpec.stripLead, GitSpec.wm]
-  decide
+  have hm : mHit false [97, 91, 33, 98, 93, 99] (joinPath [[97], [99]]) false = some true := by decide
+  have hs : sHit false [97, 91, 33, 98, 93, 99] [[97], [99]] false = none := by
+    simp [sHit, GitSpec.parsePat, GitSpec.patMatches, GitSpec.trimSpaces, GitSpec.trimSpaces.go,
+      GitSpec.stripNeg, GitSpec.stripDir, GitSpec.stripLead, GitSpec.wm]
+  rw [hm, hs]
+  simp
 
-/-- the repaired case: a lone `!` (or `/`, or `!/`) carries no pattern for ripgrep either -/
+/-- the repaired cases: a lone `!` (or `/`, or `!/`) and a lone escaped slash carry no pattern for ripgrep either -/
 example : (match addLine false [33] with | .skip => true | _ => false) = true ∧
           (match addLine false [47] with | .skip => true | _ => false) = true ∧
-          (match addLine false [33, 47] with | .skip => true | _ => false) = true := by decide
+          (match addLine false [33, 47] with | .skip => true | _ => false) = true ∧
+          (match addLine false [92, 47] with | .skip => true | _ => false) = true ∧
+          (match addLine false [33, 92, 47] with | .skip => true | _ => false) = true := by decide
 
 /-- the guards are satisfiable by non-trivial lines: `!/a.b/c-d/` (negated, anchored, two components, a name
 with a dot and one with a dash, directory-only), `A.` (a name ending in `.`), and wildcard lines -/
@@ -118,7 +131,9 @@ example : okLine [33, 47, 97, 46, 98, 47, 99, 45, 100, 47] = true ∧ okLine [65
     -- `a/**`, `**/a*`, `!/a/**/b?/`, `**/x/**` case-insensitively
     okLineS false [97, 47, 42, 42] = true ∧ okLineS false [42, 42, 47, 97, 42] = true ∧
     okLineS false [33, 47, 97, 47, 42, 42, 47, 98, 63, 47] = true ∧
-    okLineS true [42, 42, 47, 120, 47, 42, 42] = true := by decide
+    okLineS true [42, 42, 47, 120, 47, 42, 42] = true ∧
+    -- `*.a  ` (two trailing blanks)
+    okLineB false [42, 46, 97, 32, 32] = true := by decide
 
 /-- and the composed statement is exercised by a two-level tree: root ignores `b` and `/d/`, `a/.gitignore`
 re-includes `b`; `a/b` is kept, `b` and `d/x` are skipped -/
